@@ -24,6 +24,7 @@
 (*  "angle"    k for the angle k*pi/12, -Size..Size                         *)
 (*  "bezier"   control polygons for degrees 1..Size, parameter grid k/D     *)
 (*  "polyline" axis-parallel integer polylines with <= Size segments        *)
+(*             (some of length 0: a repeated vertex)                        *)
 (***************************************************************************)
 EXTENDS KernelMath, TLC, Json
 CONSTANTS Kind, Size, Level, Seed
@@ -178,8 +179,14 @@ BezierCases(z) == {[n |-> n, pat |-> p, D |-> IF n <= 7 THEN 4 ELSE 2, P |-> [i 
 
 ---------------------------------------------------------------------------
 MaxStep == IF Level = 1 THEN 3 ELSE 4
-Moves(z) == {m \in UNION {[1..k -> (1..4) \X (1..MaxStep)] : k \in 1..z} :
-             \A i \in 1..(Len(m) - 1) : Abs(m[i][1] - m[i + 1][1]) # 2}      \* no immediate reversal
+\* a move of length 0 (written with direction 1) repeats a vertex: a zero-length segment inside the polyline
+Steps == ((1..4) \X (1..MaxStep)) \cup {<<1, 0>>}
+Moves(z) == {m \in UNION {[1..k -> Steps] : k \in 1..z} :
+             /\ m[1][2] > 0 /\ m[Len(m)][2] > 0
+             \* no immediate reversal (looking through repeated vertices)
+             /\ \A i, j \in 1..Len(m) :
+                   (i < j /\ m[i][2] > 0 /\ m[j][2] > 0 /\ \A k \in (i + 1)..(j - 1) : m[k][2] = 0)
+                      => Abs(m[i][1] - m[j][1]) # 2}
 PolylineCases(z) == {[moves |-> m] : m \in Moves(z)}
 
 ---------------------------------------------------------------------------
